@@ -11,7 +11,12 @@
 (*             upgrading, not upgraded - two loads         | upgrade.gated    *)
 (*   Enter     MaybeUpgrade: upgraded? / upgrading.CompareAndSwap(false,true),*)
 (*             listeners attached, upgrade timeout armed                      *)
-(*   Probe     the candidate's probe ping is answered (client driven)         *)
+(*   SendProbe the client sends its probe ping - as soon as its connection is *)
+(*             open, i.e. possibly before MaybeUpgrade has attached the       *)
+(*             listener that answers it                                       *)
+(*   Probe     the transport's reader goroutine reads the probe and the       *)
+(*             listener answers it (nothing can hold it: it runs as soon as   *)
+(*             there is a frame to read and somebody to listen)               *)
 (*   Accept    its upgrade packet: upgraded := true; cleanup() (upgrading :=  *)
 (*             false, listeners off, timers off)           | upgrade.switching*)
 (*   Switch    discard and close the old transport, attach the new one,       *)
@@ -27,6 +32,9 @@
 (*   "SwitchWindow"  Accept releases the upgrading flag BEFORE the session is *)
 (*                   marked upgraded: a candidate arriving in between finds   *)
 (*                   both flags down                                          *)
+(*   "EagerReader"   the transport reads from its connection from its         *)
+(*                   construction on: a probe that arrives before MaybeUpgrade*)
+(*                   has attached its listener is emitted to nobody           *)
 EXTENDS Integers, Sequences, FiniteSets, TLC, Json
 
 CONSTANTS Cands, Deviations
@@ -35,41 +43,47 @@ VARIABLES upgrading, upgraded,   \* the session's flags
           pc,                    \* candidate -> none | gated | refused | attached | probed | switching | switched | closed | failed
           nswitch,               \* how often the session's transport has been switched
           lost,                  \* a transport the session had been switched to was closed by a later switch
+          sent,                  \* candidate -> none | probe (in its connection, unread) | read (answered) | dropped (emitted to nobody)
           hist
-vars == <<upgrading, upgraded, cur, pc, nswitch, lost, hist>>
-view == <<upgrading, upgraded, cur, pc, nswitch, lost>>
+vars == <<upgrading, upgraded, cur, pc, nswitch, lost, sent, hist>>
+view == <<upgrading, upgraded, cur, pc, nswitch, lost, sent>>
 Dev(d) == d \in Deviations
 \* the last action only (every state of the dumped graph carries the action that produced it); the whole history when asked for
 \* ("fullhist": the counterexamples of the deviations, which are replayed into the real code)
 H(a) == hist' = IF "fullhist" \in Deviations THEN Append(hist, a) ELSE <<a>>
 
-Init == /\ upgrading = FALSE /\ upgraded = FALSE /\ cur = "p" /\ pc = [c \in Cands |-> "none"] /\ nswitch = 0 /\ lost = FALSE /\ hist = <<>>
+Init == /\ upgrading = FALSE /\ upgraded = FALSE /\ cur = "p" /\ pc = [c \in Cands |-> "none"] /\ nswitch = 0 /\ lost = FALSE
+        /\ sent = [c \in Cands |-> "none"] /\ hist = <<>>
 
 Dial(c) == /\ pc[c] = "none"
            /\ pc' = [pc EXCEPT ![c] = IF upgrading \/ upgraded THEN "refused" ELSE "gated"]
-           /\ UNCHANGED <<upgrading, upgraded, cur, nswitch, lost>> /\ H([a |-> "dial", c |-> c])
+           /\ UNCHANGED <<upgrading, upgraded, cur, nswitch, lost, sent>> /\ H([a |-> "dial", c |-> c])
 Enter(c) == /\ pc[c] = "gated"
             /\ IF Dev("NoCAS") \/ (~upgraded /\ ~upgrading)
                THEN pc' = [pc EXCEPT ![c] = "attached"] /\ upgrading' = TRUE
                ELSE pc' = [pc EXCEPT ![c] = "closed"] /\ UNCHANGED upgrading
-            /\ UNCHANGED <<upgraded, cur, nswitch, lost>> /\ H([a |-> "enter", c |-> c])
-Probe(c) == /\ pc[c] = "attached" /\ pc' = [pc EXCEPT ![c] = "probed"]
+            /\ UNCHANGED <<upgraded, cur, nswitch, lost, sent>> /\ H([a |-> "enter", c |-> c])
+SendProbe(c) == /\ pc[c] \in {"gated", "attached"} /\ sent[c] = "none"
+                /\ sent' = [sent EXCEPT ![c] = IF pc[c] = "gated" /\ Dev("EagerReader") THEN "dropped" ELSE "probe"]
+                /\ UNCHANGED <<upgrading, upgraded, cur, pc, nswitch, lost>> /\ H([a |-> "sendprobe", c |-> c])
+Probe(c) == /\ pc[c] = "attached" /\ sent[c] = "probe" /\ pc' = [pc EXCEPT ![c] = "probed"] /\ sent' = [sent EXCEPT ![c] = "read"]
             /\ UNCHANGED <<upgrading, upgraded, cur, nswitch, lost>> /\ H([a |-> "probe", c |-> c])
 Accept(c) == /\ pc[c] = "probed" /\ pc' = [pc EXCEPT ![c] = "switching"]
              /\ upgrading' = FALSE
              /\ upgraded' = (IF Dev("SwitchWindow") THEN upgraded ELSE TRUE)
-             /\ UNCHANGED <<cur, nswitch, lost>> /\ H([a |-> "accept", c |-> c])
+             /\ UNCHANGED <<cur, nswitch, lost, sent>> /\ H([a |-> "accept", c |-> c])
 Switch(c) == /\ pc[c] = "switching"
              /\ upgraded' = TRUE /\ cur' = c /\ nswitch' = nswitch + 1
              /\ lost' = (lost \/ cur # "p")
              /\ pc' = [d \in Cands |-> IF d = c THEN "switched" ELSE IF d = cur THEN "closed" ELSE pc[d]]
-             /\ UNCHANGED upgrading /\ H([a |-> "switch", c |-> c])
+             /\ UNCHANGED <<upgrading, sent>> /\ H([a |-> "switch", c |-> c])
 Fail(c) == /\ pc[c] \in {"attached", "probed"} /\ pc' = [pc EXCEPT ![c] = "failed"] /\ upgrading' = FALSE
-           /\ UNCHANGED <<upgraded, cur, nswitch, lost>> /\ H([a |-> "fail", c |-> c])
-Unexpected(c) == /\ pc[c] = "attached" /\ pc' = [pc EXCEPT ![c] = "closed"] /\ upgrading' = FALSE
-                 /\ UNCHANGED <<upgraded, cur, nswitch, lost>> /\ H([a |-> "unexpected", c |-> c])
+           /\ UNCHANGED <<upgraded, cur, nswitch, lost, sent>> /\ H([a |-> "fail", c |-> c])
+\* (an upgrade packet from a candidate that has not even sent its probe)
+Unexpected(c) == /\ pc[c] = "attached" /\ sent[c] = "none" /\ pc' = [pc EXCEPT ![c] = "closed"] /\ upgrading' = FALSE
+                 /\ UNCHANGED <<upgraded, cur, nswitch, lost, sent>> /\ H([a |-> "unexpected", c |-> c])
 
-Next == \E c \in Cands : Dial(c) \/ Enter(c) \/ Probe(c) \/ Accept(c) \/ Switch(c) \/ Fail(c) \/ Unexpected(c)
+Next == \E c \in Cands : Dial(c) \/ Enter(c) \/ SendProbe(c) \/ Probe(c) \/ Accept(c) \/ Switch(c) \/ Fail(c) \/ Unexpected(c)
 Spec == Init /\ [][Next]_vars
 
 TypeOK == /\ upgrading \in BOOLEAN /\ upgraded \in BOOLEAN /\ cur \in Cands \cup {"p"}
@@ -83,4 +97,11 @@ C08_AtMostOnce == nswitch <= 1
 C08_SwitchKept == ~lost
 \* C08: the upgrading flag is up exactly while a candidate is entertained (a failed attempt leaves the session usable)
 C08_FlagMeansCandidate == upgrading <=> Entertained # {}
+\* C08: a candidate that follows the protocol completes the switch: the probe it sent is not emitted to nobody
+C08_ProbeNotLost == \A c \in Cands : sent[c] # "dropped"
+\* the reader has nothing to do (the replay compares in such states only)
+Settled == \A c \in Cands : ~(pc[c] = "attached" /\ sent[c] = "probe")
+\* liveness (fairness of the reader): an entertained candidate whose probe is in its connection is answered
+FairSpec == Spec /\ \A c \in Cands : WF_vars(Probe(c))
+L_C08_ProbeAnswered == \A c \in Cands : (pc[c] = "attached" /\ sent[c] = "probe") ~> (pc[c] # "attached")
 =============================================================================
